@@ -20,7 +20,8 @@ LEVEL_TEXT = ("Every (DAG, target set) pair on p<=4 nodes (8,9k pairs, quick) an
 LEVEL_NOTE = "Trusted: brute-force class table. Sampled beyond p=5 (<= 11 edges)."
 RULE = ("cases: (DAG code, target bitmask); (PDAG code, target bitmask) for pdag_to_icpdag; chains x random targets; weighted "
         "DAGs x random targets.  distinct = distinct (family, graph, targets); non-trivial = targets neither empty nor all "
-        "nodes and Markov class size >= 2 (for pdag_to_icpdag: some target carries an undirected edge, or class size >= 2)")
+        "nodes and Markov class size >= 2 (for pdag_to_icpdag: some target carries an undirected edge, or class size >= 2)"
+        ' Also: relabelled embeddings, named shapes, weighted canonical chains and chains plus chords, graphs built from utils.chain_graph and edited in place, frozenset targets, check_chain=False, debug=True, repeat after the caller overwrote the result.')
 ASSUMPTIONS = ["brute-force oracle correct (counts self-checked)"]
 EXHAUSTIVE = {"quick": True, "thorough": True}
 SOFT_LIMIT = {"quick": 240, "thorough": 1700}
